@@ -164,6 +164,25 @@ func runWs(c *Case) []string {
 					events = append(events, "pending")
 				}
 			}
+		case "writeframe2", "awriteframe2":
+			// a caller that replaces a draft payload before submitting: SetPayload twice on the same frame
+			f := s.AcquireFrame()
+			if a[0] == "1" {
+				f.SetFIN()
+			}
+			f.SetOpcode(websocket.Opcode(atoi(a[1])))
+			f.SetPayload(patternBytes(7, atoi(a[2])))
+			f.SetPayload(payloadArg(a, 3))
+			if op == "writeframe2" {
+				err := s.WriteFrame(f)
+				events = append(events, fmt.Sprintf("w=%d", wsErrClass(err)))
+			} else {
+				before := writeCalls
+				s.AsyncWriteFrame(f, writeCb)
+				if writeCalls == before {
+					events = append(events, "pending")
+				}
+			}
 		case "flush":
 			events = append(events, fmt.Sprintf("w=%d", wsErrClass(s.Flush())))
 		case "aflush":
